@@ -480,6 +480,7 @@ class Lexer(object):
             block_prefix_re = '%s' % e(environment.block_start_string)
 
         self.newline_sequence = environment.newline_sequence
+        self.block_start_string = environment.block_start_string
         self.keep_trailing_newline = environment.keep_trailing_newline
 
         # global lexing rules
@@ -561,6 +562,7 @@ class Lexer(object):
         """This is called with the stream as returned by `tokenize` and wraps
         every token in a :class:`Token` and converts the value.
         """
+        raw_prefix = None
         for lineno, token, value in stream:
             if token in ignored_tokens:
                 continue
@@ -570,9 +572,15 @@ class Lexer(object):
                 token = 'block_end'
             # we are not interested in those tokens in the parser
             elif token in ('raw_begin', 'raw_end'):
+                # auto-indented raw block using {%* raw %}: the content is static text, so it is prefixed here
+                marked = token == 'raw_begin' and value.lstrip(' \t').startswith(self.block_start_string + '*')
+                raw_prefix = value[:len(value) - len(value.lstrip(' \t'))] if marked else None
                 continue
             elif token == 'data':
                 value = self._normalize_newlines(value)
+                if raw_prefix is not None:
+                    from nunavut.jinja.jinja2.filters import do_lineprefix
+                    value, raw_prefix = do_lineprefix(value, raw_prefix), None
             elif token == 'keyword':
                 token = value
             elif token == 'name':
